@@ -861,9 +861,58 @@ def eval_scases(ck, name, cases):
     return parse_report(out, H_LISTS), out
 
 
+NODES = ("n1", "n2")
+
+
+def has_nodes(c):
+    """round 7: a history whose pushes name different ClickHouse nodes (two servers, one database name)"""
+    return any(st.get("node") for st in c["steps"])
+
+
+def node_projections(c, base):
+    """The property is a statement PER NODE (a sample stored on node X is found through the time_series rows of X), and the
+    cache key includes the node, so the nodes are independent: node X must behave like the single-node model on the pushes
+    sent to X (and every cache reset). An INSERT counts for X only if it travelled on X's connection. Returns the projections
+    (ids base, base + 1) and whether some INSERT of a push travelled on the connection of another node."""
+    out, foreign = [], False
+    for k, nd in enumerate(NODES):
+        steps, obs = [], []
+        for st, ob in zip(c["steps"], c["obs"]):
+            if st["k"] == "reset":
+                steps.append(st)
+                obs.append(ob)
+            elif (st.get("node") or NODES[0]) == nd:
+                mine = [cl for cl in ob.get("calls") or [] if (cl.get("node") or NODES[0]) == nd]
+                foreign = foreign or len(mine) != len(ob.get("calls") or [])
+                steps.append({x: y for x, y in st.items() if x != "node"})
+                obs.append(dict(ob, calls=mine))
+        out.append({"id": base + k, "class": c["class"], "steps": steps, "obs": obs})
+    return out, foreign
+
+
 def eval_cases(ck, name, cases):
-    """histories with a group step are judged by model/SharedInsert.v, the others by model/SeriesIndex.v"""
+    """histories with a group step are judged by model/SharedInsert.v, the others by model/SeriesIndex.v; a history over two
+    nodes is judged node by node (node_projections)"""
     res, outs = {k: [] for k in H_LISTS}, ""
+    multi = [c for c in cases if has_nodes(c)]
+    if multi:
+        cases = [c for c in cases if not has_nodes(c)]
+        proj, back = [], {}
+        for c in multi:
+            if any(st["k"] not in ("push", "reset") for st in c["steps"]):
+                raise ValueError("a history over two nodes has pushes and resets only")
+            ps, foreign = node_projections(c, 2 * len(back))
+            for p_ in ps:
+                back[p_["id"]] = c["id"]
+            proj += ps
+            if foreign:
+                res["M_hist"].append(c["id"])
+        r, out = eval_hcases(ck, name + "_n", proj)
+        outs += out
+        if r is None:
+            return None, out
+        for k in H_LISTS:
+            res[k] += sorted({back[i] for i in r[k]} - set(res[k]))
     for tag, part, fn in (("", [c for c in cases if not has_group(c)], eval_hcases), ("_s", [c for c in cases if has_group(c)], eval_scases)):
         if not part:
             continue
@@ -1074,6 +1123,9 @@ def show_hist(c):
             d = {"open push number %d (oldest = 0) continues with a malformed body" % st.get("idx", 0): True}
         d["status"] = ob["status"]
         d["inserts"] = [{"table": cl["table"], "ok": cl["ok"], "rows": cl["rows"]} for cl in ob["calls"] or []]
+        if has_nodes(c):
+            d["node named by the request (X-CH-DSN); both nodes are single servers whose database is called qryn"] = st.get("node") or NODES[0]
+            d["inserts"] = [dict(x, **{"on the connection of node": cl.get("node") or NODES[0]}) for x, cl in zip(d["inserts"], ob["calls"] or [])]
         out.append(d)
     return out
 
@@ -1178,7 +1230,7 @@ def run_hist(ck):
                             "push whose body is malformed after its streams, push whose body stays open while other steps run and is completed or continued malformed later in any order, cache reset) "
                             "with scripted outcomes of the series and the samples insert; histories of 3..12 steps around requests above 1 MiB (a stream with a log line of 1.1 MB makes onEntries hand over the chunk collected so far while the body stays open: "
                             "begin + flush, further streams - often the same series again - with or without another flush, end or malformed continuation, each chunk's two inserts with their own scripted outcomes, "
-                            "ordinary pushes of the same series in between, up to two such requests open at once, the whole long request sent again, resets), 32 histories enumerated over (2..3 pushes that arrive while the time_series INSERT of a first push is waiting for ClickHouse and announce the same new series / a chain of series neighbours have in common / two series one of which the waiting INSERT carries too / the same series on different days and with different sample types; outcome of the waiting INSERT; outcome of the shared INSERT) with a samples failure here and there, before them sometimes a failed or a successful announcement of the series, after them every client again (pushes, or another group; sometimes a reset first), 30 histories enumerated over (2..4 chunks each announcing series of its own, the failing chunk, its failing insert: series / samples / both, or every series insert failing) followed by the client's second attempt (the long request again, its streams as one push, or chunk by chunk), plus 36 two-series histories whose announcement keys agree on the low / middle / high 32 bits, run through the in-process writer built by the production wiring (plugin.CreateStaticServiceRegistry: real GoCache and serializer); non-trivial = at least 2 pushes, distinct by content. ")
+                            "ordinary pushes of the same series in between, up to two such requests open at once, the whole long request sent again, resets), 32 histories enumerated over (2..3 pushes that arrive while the time_series INSERT of a first push is waiting for ClickHouse and announce the same new series / a chain of series neighbours have in common / two series one of which the waiting INSERT carries too / the same series on different days and with different sample types; outcome of the waiting INSERT; outcome of the shared INSERT) with a samples failure here and there, before them sometimes a failed or a successful announcement of the series, after them every client again (pushes, or another group; sometimes a reset first), 30 histories enumerated over (2..4 chunks each announcing series of its own, the failing chunk, its failing insert: series / samples / both, or every series insert failing) followed by the client's second attempt (the long request again, its streams as one push, or chunk by chunk), 20 histories over TWO single-server nodes n1, n2 whose database has the same name (16 enumerated orders of pushes of one or two fresh series to the two nodes - X-CH-DSN -, with a failing series or samples insert or a reset in between, 4 random ones; judged node by node: an INSERT counts for a node only if it travelled on that node's connection), plus 36 two-series histories whose announcement keys agree on the low / middle / high 32 bits, run through the in-process writer built by the production wiring (plugin.CreateStaticServiceRegistry: real GoCache and serializer); non-trivial = at least 2 pushes, distinct by content. ")
     ck.extra["hist_input_classes"] = hist
     ck.extra["hist_step_kinds"] = kinds
     nover = sum(1 for c in cases if c["class"].startswith("overlap"))
@@ -1224,6 +1276,27 @@ def run_hist(ck):
                                       "requests in group steps": sum(len(st["members"]) for st, _ in gsteps)}
     ck.obligation("histories in which the series rows of two or more requests wait in one pending buffer of the REAL time_series insert service and go out in one INSERT were generated and ran as intended (an INSERT kept waiting inside the client, the Request of every other push returned meanwhile, one INSERT afterwards), some with that INSERT failing",
                   nsh >= 15 and nshfail >= 6, "%d group steps, %d with a shared INSERT, %d of them failing" % (len(gsteps), nsh, nshfail))
+    # round 7: the same series on two servers whose database has the same name
+    def both_nodes(c):
+        """series (fingerprints) acknowledged on both nodes, each node having received a time_series row of it on its own connection"""
+        got = {nd: set() for nd in NODES}
+        for st, ob in zip(c["steps"], c["obs"]):
+            nd = st.get("node") or NODES[0]
+            if st["k"] == "push" and 200 <= ob["status"] < 300:
+                got[nd] |= {s_["fp"] for s_ in st["streams"]}
+        return got[NODES[0]] & got[NODES[1]]
+    ncases = [c for c in cases if has_nodes(c)]
+    nboth = sum(1 for c in ncases if both_nodes(c))
+    nhit = sum(1 for c in ncases for i, (st, ob) in enumerate(zip(c["steps"], c["obs"]))
+               if st["k"] == "push" and 200 <= ob["status"] < 300 and any(cl["table"] == "time_series" and cl["ok"] for cl in ob["calls"] or [])
+               and any(st2["k"] == "push" and (st2.get("node") or NODES[0]) != (st.get("node") or NODES[0]) and 200 <= ob2["status"] < 300
+                       and {s_["fp"] for s_ in st2["streams"]} & {s_["fp"] for s_ in st["streams"]} for st2, ob2 in zip(c["steps"][:i], c["obs"][:i])))
+    ck.extra["hist_two_nodes"] = {"histories": len(ncases), "a series acknowledged on both nodes": nboth,
+                                  "pushes that announced (time_series INSERT ok) a series the OTHER node had acknowledged earlier in the history": nhit,
+                                  "pushes to n2": sum(1 for c in ncases for st in c["steps"] if st.get("node") == NODES[1])}
+    ck.obligation("histories over two single-server nodes whose database has the same name were generated and ran as intended (the same series acknowledged on both nodes; pushes that announce on one node a series the other node has already confirmed)",
+                  nboth >= 12 and nhit >= 12, "%d histories over two nodes, %d with a series on both, %d announcements of a series the other node had" % (len(ncases), nboth, nhit))
+    ck.add_samples([show_hist(c) for c in ncases if len(c["steps"]) == 3][:1])
     ck.add_samples([show_hist(c) for c in cases if len(c["steps"]) >= 2 and not has_group(c)][:1] + [show_hist(c) for c in cases if has_group(c)][:1])
 
 
@@ -1238,12 +1311,13 @@ def run_keys(ck):
     flags = [c for c in cases if c.get("class") == "cluster-cache"]
     cases = [c for c in cases if c.get("class") != "cluster-cache"]
     want = {"single:first_checkandset": False, "single:has_after_set": True, "single:second_checkandset": True, "single:has_other": False,
-            "cluster:first_checkandset": False, "cluster:has_after_set": False, "cluster:second_checkandset": False, "cluster:has_other": False}
+            "cluster:first_checkandset": False, "cluster:has_after_set": False, "cluster:second_checkandset": False, "cluster:has_other": False,
+            "twin1:first_checkandset": False, "twin2:has_what_twin1_set": False, "twin2:first_checkandset": False, "twin1:has_after_both": True}
     got = flags[0]["flags"] if flags else None
-    ck.obligation("numbercache views: a single node remembers what it was told, a node with a ClusterName answers 'not seen' and stores nothing (the premise of acked_sample_is_indexed_cluster_mode)",
+    ck.obligation("numbercache views: a single node remembers what it was told, a node with a ClusterName answers 'not seen' and stores nothing (the premise of acked_sample_is_indexed_cluster_mode), two single nodes whose database has the same name do not see each other's keys (the prefix of CacheKey.node_key is the NODE name: cache_key_injective_with_node)",
                   got == want, "observed %s" % got)
     if got != want:
-        ck.violation({"property": "C04", "part": "keys", "kind": "the announcement cache view of a node does not behave as modelled (single: set semantics; cluster: always 'not seen')",
+        ck.violation({"property": "C04", "part": "keys", "kind": "the announcement cache view of a node does not behave as modelled (single: set semantics; cluster: always 'not seen'; two nodes with one database name: separate key spaces)",
                       "case": {"observed": got, "expected": want}, "replay": "seriesid --mode keys"})
     txt = ("From Coq Require Import List ZArith Bool String Uint63.\n"
            "From Qryn Require Import model.Labels model.CacheKey.\n"
@@ -1365,7 +1439,7 @@ def run(ck):
         "C04: fingerprint injectivity is conditional on collision-freeness hypotheses that are tested, not proved",
         "C04 protocols: unicode.Is(unicode.L, r) above U+007F is an oracle table per ddtags text (the theorems hold for every oracle); Go's regexp semantics for tagPattern (leftmost, greedy; unique match per start rune) is argued in model/DdTags.v and checked by the correspondence on texts with junk; encoding/json's string encoder, base64.StdEncoding and strconv.FormatFloat (C15's model/GoFloat.v) are transcribed and checked by the correspondence on OTLP any-value trees",
         "C04 decode side: the reader's Go decoder (storedLabels) is RUN on every generated document; the SQL side (JSONExtractKeysAndValues / mapFromArrays) is represented as in C07/C17 (SqlEval.label_of over the key/value list) and label_document_meets_sql_reader proves the stored text meets that representation's premises (object of strings, distinct keys); ClickHouse itself is not available",
-        "C04 histories: the (day, fingerprint, type) cache key CH64(day || fp || type) is modelled as the triple itself (no collisions); fastcache has no false positives; the cache is the production GoCache; a cache reset runs the ticker's body through hook VerifC04Reset; CH64 collision-freeness of the 64-bit key is a hypothesis of announcement_cache_refines; the mid-request flush above 1 MiB is modelled (Flush k: the chunk of the k-th open request is sent with its own insert outcomes; More k: it parses further streams; the model allows a flush at any stream boundary) and driven with real 1.1 MB log lines, one flush / continuation / completion at a time: the two inserts of a chunk are one atomic step of the model, so are the last chunk's inserts, the decision over all chunks and the cache update (End); the insert services are the real ones (writer/service + writer/service/impl, built by the production wiring, PushInterval 1 ms); in the histories of model/SeriesIndex.v every request's rows travel in an INSERT of their own; histories of class shared-insert make the rows of several one-chunk requests share ONE INSERT (the fake client keeps the INSERT of a first push waiting, the harness sees the Request of every other push return through a counting pass-through in front of the real time_series service - the only thing in the registry that is not the plugin's) and are judged by model/SharedInsert.v (requests of one chunk; the samples insert of a request is not batched with others); requests of several chunks that share an INSERT with other requests are not driven; single node (the cache is disabled in cluster mode); overlapping requests are driven through bodies that stay open (io.Pipe)",
+        "C04 histories: the (day, fingerprint, type) cache key CH64(day || fp || type) is modelled as the triple itself (no collisions); fastcache has no false positives; the cache is the production GoCache; a cache reset runs the ticker's body through hook VerifC04Reset; CH64 collision-freeness of the 64-bit key is a hypothesis of announcement_cache_refines; the mid-request flush above 1 MiB is modelled (Flush k: the chunk of the k-th open request is sent with its own insert outcomes; More k: it parses further streams; the model allows a flush at any stream boundary) and driven with real 1.1 MB log lines, one flush / continuation / completion at a time: the two inserts of a chunk are one atomic step of the model, so are the last chunk's inserts, the decision over all chunks and the cache update (End); the insert services are the real ones (writer/service + writer/service/impl, built by the production wiring, PushInterval 1 ms); in the histories of model/SeriesIndex.v every request's rows travel in an INSERT of their own; histories of class shared-insert make the rows of several one-chunk requests share ONE INSERT (the fake client keeps the INSERT of a first push waiting, the harness sees the Request of every other push return through a counting pass-through in front of the real time_series service - the only thing in the registry that is not the plugin's) and are judged by model/SharedInsert.v (requests of one chunk; the samples insert of a request is not batched with others); requests of several chunks that share an INSERT with other requests are not driven; two single-server nodes n1, n2 with one database name in the registry, every request names its node with X-CH-DSN (the registry's random choice for a request without the header is not driven), all histories but those of class nodes go to n1, histories of class nodes are judged node by node (an INSERT counts for the node whose connection carried it); the cache is disabled in cluster mode; overlapping requests are driven through bodies that stay open (io.Pipe)",
         "C04 dates: ch-go's ToDate and Go's time.Truncate are transcribed (checked by the correspondence over 32 zones); the reader's own zone (upper date bound) belongs to C13",
     ]
     ck.coq_props()
